@@ -772,3 +772,30 @@ fn c07_parse_goodbye_reason_len_boundary() {
     assert!(parse_goodbye(1, &[s[0], s[1], s[2], s[3], 255, b'b', b'y', b'e']).is_err());
     assert!(parse_goodbye(2, &[s[0], s[1], s[2], s[3], 0, 0, 0]).is_err());
 }
+
+// ---------------------------------------------------------------- marshal_rtcp_packets (compound writer)
+/// one PLI: V=2, FMT=1, PT=206, length=2, sender / media SSRC
+#[kani::proof]
+#[kani::unwind(12)]
+fn c15_marshal_rtcp_pli_layout() {
+    let (s, m): (u32, u32) = (kani::any(), kani::any());
+    let out = marshal_rtcp_packets(&[RtcpPacket::PictureLossIndication(PictureLossIndication { sender_ssrc: s, media_ssrc: m })]).unwrap();
+    assert!(out.len() == 12 && out[0] == 0x81 && out[1] == 206 && out[2..4] == [0, 2]);
+    assert!(out[4..8] == s.to_be_bytes() && out[8..12] == m.to_be_bytes());
+}
+/// RR with one block followed by a PLI: count field, packet types, lengths, and the second
+/// sub-packet starts right after the first (compound framing, RFC 3550 6.1)
+#[kani::proof]
+#[kani::unwind(12)]
+fn c15_marshal_rtcp_rr_then_pli_layout() {
+    let mut b = any_report_block(); b.packets_lost = (b.packets_lost << 8) >> 8;
+    let rr = ReceiverReport { sender_ssrc: kani::any(), report_blocks: vec![b] };
+    let (s, m): (u32, u32) = (kani::any(), kani::any());
+    let ssrc = rr.sender_ssrc;
+    let pkts = [RtcpPacket::ReceiverReport(rr), RtcpPacket::PictureLossIndication(PictureLossIndication { sender_ssrc: s, media_ssrc: m })];
+    let out = marshal_rtcp_packets(&pkts).unwrap();
+    assert!(out.len() == 32 + 12);
+    assert!(out[0] == 0x81 && out[1] == 201 && out[2..4] == [0, 7] && out[4..8] == ssrc.to_be_bytes());
+    assert!(out[32] == 0x81 && out[33] == 206 && out[34..36] == [0, 2] && out[36..40] == s.to_be_bytes() && out[40..44] == m.to_be_bytes());
+    core::mem::forget(pkts);
+}
